@@ -388,9 +388,9 @@ Proof.
     pose proof (core_inv_peer_app cfg s f Hinv) as H1.
     destruct (max_buffered <? f_len f).
     { eapply core_inv_same; [|exact H1]. unfold init_fail. same_core_tac. }
-    set (s2 := match typed_handler cfg (f_typ f) with Some _ => _ | None => _ end).
+    set (s2 := match first_handler cfg (f_typ f) with Some _ => _ | None => _ end).
     assert (Hs2 : same_core (set_peer_sent (peer_sent s ++ [f]) s) s2).
-    { subst s2. destruct (typed_handler cfg (f_typ f)) as [k|]; [|apply same_core_refl].
+    { subst s2. destruct (first_handler cfg (f_typ f)) as [k|]; [|apply same_core_refl].
       destruct k; try (same_core_tac; fail).
       eapply same_core_trans; [|apply ack_enqueue_same_core]. same_core_tac. }
     eapply core_inv_same; [|exact H1].
